@@ -29,7 +29,26 @@ PS_POOL = ["1", "7", "500", "90210", "10", "2", "0", "PSa", "none", "chr1"]
 CHROM_POOL = ["chr1", "chr2", "chr10", "1", "X", "ref"]
 
 
+FIRST_CHARS = "#@+;:>!*=~$%&.,-/<?[]^_`{|}'\"\\()"
+ANY_CHARS = "".join(chr(i) for i in range(33, 127))       # every printable non-blank ASCII character
+HEADERS = [["#readname", "haplotype", "phaseset", "chromosome", "extra"],      # what haplotag writes
+           ["#read", "hap", "ps", "chr", "x"],
+           ["# readname", "haplotype", "phaseset", "chromosome", "extra"],
+           ["#", "h", "p", "c", "x"],
+           ["##readname", "haplotype", "phaseset", "chromosome", "extra"]]
+
+
+def gen_wild_name(rng, first=None):
+    """a name over the whole legal character set (SAM: [!-?A-~]{1,254}; FASTQ: anything but blanks after the '@'),
+    starting with a punctuation character -- '#', '@', '+', ';', ':' ... -- unless `first` is given"""
+    c0 = first or rng.choice("#####@@++;:" + FIRST_CHARS)
+    n = c0 + "".join(rng.choice(ANY_CHARS) for _ in range(rng.choice([0, 1, 2, 4, 9])))
+    return n + "x" if n == "*" else n
+
+
 def gen_name(rng):
+    if rng.random() < 0.12:
+        return gen_wild_name(rng)
     if rng.random() < 0.2:
         return rng.choice(SPECIAL_NAMES)      # names sharing prefixes / looking like haplotype, phase set, chromosome names
     n = rng.choice([1, 1, 2, 3, 6])
@@ -228,13 +247,19 @@ def largest_block_features(lines):
     return feats
 
 
-def gen_case(rng, combo=None, fmt=None, allow_empty_fastq=False, dup_list_names=None, invalid=None, ext=None):
-    """invalid: None | 'badhap' | 'emptyfile' | 'largest2col' | 'noknown'"""
+def gen_case(rng, combo=None, fmt=None, allow_empty_fastq=False, dup_list_names=None, invalid=None, ext=None,
+             hash_names=False):
+    """invalid: None | 'badhap' | 'emptyfile' | 'largest2col' | 'noknown'; hash_names: at least one read name
+    starts with '#' and is listed (tagged), on the first or on a later line"""
     o = gen_opts(rng, combo)
     p = opts_ploidy(o)
     fmt = fmt or rng.choice(["fastq", "fastq.gz", "bam", "bam"])
     npool = rng.choice([1, 2, 3, 4, 6])
     pool = []
+    if hash_names:
+        npool = max(npool, 2)
+        pool = [gen_wild_name(rng, "#") for _ in range(rng.choice([1, 1, 2]))]
+        pool = list(dict.fromkeys(pool))
     while len(pool) < npool:
         n = gen_name(rng)
         if n not in pool:
@@ -292,7 +317,8 @@ def gen_case(rng, combo=None, fmt=None, allow_empty_fastq=False, dup_list_names=
     if o["largest"] and invalid is None and rng.random() < 0.5:
         lines = gen_tie_lines(rng, pool + extra, p, chroms)
     lst = {"header": rng.random() < 0.6, "ncols": ncols, "gz": rng.random() < 0.2, "lines": lines,
-           "eol": rng.choice(["\n", "\n", "\n", "\r\n"]), "final_newline": rng.random() < 0.8}
+           "eol": rng.choice(["\n", "\n", "\n", "\r\n"]), "final_newline": rng.random() < 0.8,
+           "header_style": rng.choice([0, 0, 0, 1, 2, 3, 4])}
     if invalid == "badhap":
         if not lines:
             lines.append([gen_name(rng), "H1", pss[0], chroms[0]])
@@ -312,6 +338,19 @@ def gen_case(rng, combo=None, fmt=None, allow_empty_fastq=False, dup_list_names=
         lst["lines"] = []
     elif not lst["header"] and not lines:
         lst["header"] = True
+    if hash_names and invalid is None:
+        hn = [n for n in pool if n.startswith("#")]
+        if not any(r[0] in hn if fmt != "bam" else r["name"] in hn for r in reads):
+            n = rng.choice(hn)
+            reads.insert(rng.randrange(len(reads) + 1),
+                         gen_bam_read(rng, n, sq) if fmt == "bam" else gen_fastq_read(rng, n, False))
+        for n in hn:
+            if not any(x[0] == n and x[1] != "none" for x in lst["lines"]):
+                lst["lines"].append([n, rng.choice(haps[1:]), rng.choice(pss), rng.choice(chroms)])
+        rng.shuffle(lst["lines"])
+        if rng.random() < 0.35:                      # a '#' name on the very first line
+            i = next(i for i, x in enumerate(lst["lines"]) if x[0] in hn)
+            lst["lines"].insert(0, lst["lines"].pop(i))
     case = {"fmt": fmt, "reads": reads, "list": lst, "opts": o, "hashseed": rng.choice(["0", "0", "1", "7", "42"])}
     if fmt == "bam":
         case["sq"] = sq
@@ -376,7 +415,7 @@ def list_text(lst):
     nc = lst["ncols"]
     out = []
     if lst["header"]:
-        out.append("\t".join(["#readname", "haplotype", "phaseset", "chromosome", "extra"][:nc]))
+        out.append("\t".join(HEADERS[lst.get("header_style", 0)][:nc]))
     for name, hap, ps, chrom in lst["lines"]:
         out.append("\t".join([name, hap, ps, chrom, "x"][:nc]))
     eol = lst.get("eol", "\n")
@@ -660,17 +699,29 @@ def cfg_term(case):
             f"{b(o['discard'])} {b(o['hist'])})")
 
 
+def effective_list(lst):
+    """(has_header, entries) as the list FORMAT defines them: a first line that starts with '#' is the header
+    line -- also when it was meant as the entry of a read whose name starts with '#' (the format cannot tell
+    the two apart; split.py peeks at the first line only). '#' at the start of any later line is part of a name."""
+    if lst["header"]:
+        return True, lst["lines"]
+    if lst["lines"] and lst["lines"][0][0].startswith("#"):
+        return True, lst["lines"][1:]
+    return False, lst["lines"]
+
+
 def list_term(case):
     lst = case["list"]
     nc = lst["ncols"]
     ents = []
-    for name, hap, ps, chrom in lst["lines"]:
+    has_header, entries = effective_list(lst)
+    for name, hap, ps, chrom in entries:
         if nc >= 4:
             ents.append(f"({hexz(enc(name))}, {hap_code(hap)}%Z, {hexz(enc(ps))}, {hexz(enc(chrom))})")
         else:
             ents.append(f"({hexz(enc(name))}, {hap_code(hap)}%Z, 0%Z, 0%Z)")
     ents = [e.replace("-1%Z", "(-1)%Z") for e in ents]
-    return f"(mkList {b(lst['header'])} {b(nc >= 4)} [{'; '.join(ents)}])"
+    return f"(mkList {b(has_header)} {b(nc >= 4)} [{'; '.join(ents)}])"
 
 
 def reads_term(obs):
